@@ -107,6 +107,9 @@ impl PropImpl for C06 {
          documents (for which both readers must accept and report the generator's model). Non-trivial: both readers accept and the text has a continuation line, a comment or >= 2 paragraphs \
          (well-formed renderings: by C03's rule). Distinct by text hash.".into()
     }
+    fn expected_labels(&self) -> Vec<&'static str> {
+        vec!["both-accept", "both-reject", "comment:after-last-field", "comment:before-first-field", "comment:between-fields", "comment:between-paragraphs", "comment:end", "comment:top", "continuation-starts-with-colon", "continuation-starts-with-dash", "duplicate-name", "empty-first-line", "empty-value", "has:CR", "multi-line-value", "no-final-newline", "no-paragraph", "no-space-after-colon", "non-ascii-value", "only-lossless-accepts", "origin:enum", "origin:mutated-doc", "origin:random", "origin:well-formed", "paragraphs>=2", "several-empty-lines", "tab-whitespace", "trailing-whitespace-in-line"]
+    }
     fn budget(&self, tier: Tier) -> Budget {
         Budget { cases_per_lane: if tier == Tier::Quick { 20000 } else { 100_000 }, tape_max: 600, cpu_s: 10 }
     }
